@@ -823,4 +823,13 @@ Proof.
   intros. apply sinv_run; [|assumption]. split; simpl; apply new_map_ok; assumption.
 Qed.
 
+Theorem set_refines_lemma : forall ops,
+  map (fun '(r, n, cts, _) => (r, n, cts)) (set_run hash ops) = srun (mkss [] [] false) (map set_to_map ops).
+Proof.
+  intros. unfold set_run, default_map. apply map_refines_fmap_lemma.
+  - unfold map_default_min_buckets. lia.
+  - unfold map_default_min_buckets. lia.
+  - induction ops as [|o r IH]; [reflexivity|]. simpl. rewrite IH. destruct o; reflexivity.
+Qed.
+
 End MapProofs.
